@@ -1201,7 +1201,7 @@ func (fr *Frame) indexAddr(st *State, g string, x *ssa.IndexAddr) *State {
 		s := fr.val(x.X)
 		fr.boundsCheck(g, idx, fmt.Sprintf("(slen_ %s)", s), x.Pos(), "index out of range")
 		hv := vc.arrHeapVar(t.Elem())
-		abs := vc.addInt(fmt.Sprintf("(soff %s)", s), idx)
+		abs := vc.absIdx(s, idx)
 		fr.locs[x] = &Loc{svar: hv, addr: fmt.Sprintf("(sref %s)", s), typ: types.NewSlice(t.Elem()), nilOK: true,
 			path: []step{{isIndex: true, index: abs, elem: t.Elem()}}}
 	case *types.Pointer:
